@@ -174,6 +174,9 @@ func fieldStep(v *types.Var, owner types.Type) string {
 	}
 	if n, ok := types.Unalias(owner).(*types.Named); ok {
 		o = n.Obj().Name()
+		if co, cf := CanonField(o, v.Name()); true {
+			return "f:" + co + "." + cf
+		}
 	} else if _, ok := owner.Underlying().(*types.Struct); ok {
 		o = "struct"
 	}
